@@ -23,7 +23,7 @@ na = [{'property_id': p, 'reason': r} for p, r in sorted(claims.NOT_APPLICABLE.i
 m = {
     'version': 1,
     'setup_cmd': './setup.sh',
-    'hooks': {'guard': 'OOMD_VERIF', 'enable': 'none needed: checks compile the unmodified /repo sources (shadow header dir + -D on the verification compile only)', 'baseline_off_cmd': 'ninja -C /repo/_build && cd /repo/_build && ctest -j8 --timeout 900', 'source_commits': [], 'add_only': True},
+    'hooks': {'guard': 'OOMD_VERIF', 'enable': 'none needed: checks compile the unmodified /repo sources (shadow header dir + -D on the verification compile only)', 'baseline_off_cmd': 'ninja -C /repo/_build && meson test -C /repo/_build', 'source_commits': [], 'add_only': True},
     'engines': [{'name': 'll2c+cbmc', 'path': 'vfcheck.py', 'serves_properties': claimed, 'kind_free_text': 'real oomd C++ compiled by clang-14 against a bounded std-library model (vstl) to LLVM IR, translated to C by ll2c, decided by CBMC 6.11 (SAT); counterexamples replayed on a g++/libstdc++ ASan+UBSan build of the same sources'}],
     'checks': checks,
     'not_applicable': na,
